@@ -55,15 +55,69 @@ def run(tape, scenario):
             env.bus.add_terminal(st)
             sims.append(st)
         ec_s, ec_f = EtherCat("sim0"), FastEtherCat("sim0")
-        terms_s = [ebpf_terminal(ec_s, st, sp["use_fmmu"]) for st, sp in zip(sims, specs)]
-        terms_f = [ebpf_terminal(ec_f, st, sp["use_fmmu"]) for st, sp in zip(sims, specs)]
+        # how each linked variable is declared: directly, or through the terminal-side
+        # descriptors (ProcessDesc from the PDO map with/without size override, PacketDesc,
+        # Struct channels with offsets)
+        from ebpfcat.ebpfcat import (EBPFTerminal, PacketDesc, PacketVar, ProcessDesc, Struct)
+        SMS = {"in": SyncManager.IN, "out": SyncManager.OUT}
+        attrs = [dict() for _ in specs]
+        pdos = [dict() for _ in specs]
+        for n, ln in enumerate(links):
+            k, sm, pos, size = ln["term"], SMS[ln["sm"]], ln["pos"], ln["size"]
+            how = tape.draw("c19/declared-as", 6)
+            ln["how"] = ["direct", "process", "process-override", "packet", "struct-packet",
+                         "struct-process"][how]
+            idx, sub = 0x6000 + 0x10 * n, 1 + (n % 5)
+            if how == 1:
+                attrs[k][f"v{n}"] = ProcessDesc(idx, sub)
+                pdos[k][(idx, sub)] = (sm, pos, size)
+            elif how == 2:
+                # the PDO map says something else, the explicit size (a format, or a bit
+                # number 0..7) must win
+                other = "B" if isinstance(size, int) or size != "B" else 3
+                if isinstance(size, int):
+                    other = tape.pick("c19/mapped-as", ["B", (size + 1) % 8, (size + 5) % 8])
+                attrs[k][f"v{n}"] = ProcessDesc(idx, sub, size)
+                pdos[k][(idx, sub)] = (sm, pos, other)
+            elif how == 3:
+                attrs[k][f"v{n}"] = PacketDesc(sm, pos, size)
+            elif how in (4, 5):
+                off = tape.draw("c19/struct-offset", pos + 1)
+                coe = 0x100 * (1 + tape.draw("c19/coe-offset", 3))
+                body = {"x": PacketDesc(sm, pos - off, size)} if how == 4 else \
+                    {"x": ProcessDesc(idx - coe, sub)}
+                if how == 5:
+                    pdos[k][(idx, sub)] = (sm, pos, size)
+                Ch = type(f"Ch{n}", (Struct,), body)
+                attrs[k][f"ch{n}"] = Ch(off if ln["sm"] == "in" else 0,
+                                        off if ln["sm"] == "out" else 0, coe)
+        tclasses = [type(f"GenTerm{k}", (EBPFTerminal,), attrs[k]) for k in range(len(specs))]
+        terms_s = [ebpf_terminal(ec_s, st, sp["use_fmmu"], tclasses[k])
+                   for k, (st, sp) in enumerate(zip(sims, specs))]
+        terms_f = [ebpf_terminal(ec_f, st, sp["use_fmmu"], tclasses[k])
+                   for k, (st, sp) in enumerate(zip(sims, specs))]
+        for k in range(len(specs)):
+            terms_s[k].pdos = dict(pdos[k])
+            terms_f[k].pdos = dict(pdos[k])
+        index_of = {id(ln): n for n, ln in enumerate(links)}
+
+        def factory(terms):
+            def mk(ln, sm):
+                n = index_of[id(ln)]
+                t = terms[ln["term"]]
+                if ln["how"] == "direct":
+                    return PacketVar(t, sm, ln["pos"], ln["size"])
+                if ln["how"].startswith("struct"):
+                    return getattr(t, f"ch{n}").x
+                return getattr(t, f"v{n}")
+            return mk
 
         # identical device layout on both paths: replay the same draws
         mark = len(tape.values)
-        devs_s = build_devices(tape, terms_s, links, "c19", variants=True)
+        devs_s = build_devices(tape, terms_s, links, "c19", variants=True, var_factory=factory(terms_s))
         consumed = tape.values[mark:]
         sub = type(tape)(replay=consumed)
-        devs_f = build_devices(sub, terms_f, links, "c19", variants=True)
+        devs_f = build_devices(sub, terms_f, links, "c19", variants=True, var_factory=factory(terms_f))
 
         sg_s = SyncGroup(ec_s, devs_s)
         sg_s.allocate()
